@@ -1417,6 +1417,24 @@ func ruleR12d(c *Ctx) {
 		}
 		for _, b := range fn.Blocks {
 			for _, ins := range b.Instrs {
+				// the address of a package-level variable handed to a call (a pool, cache, mutex, once or
+				// counter kept at package level: `visitorPool.Get()`), or a map kept at package level updated
+				if call, ok := ins.(ssa.CallInstruction); ok {
+					for _, a := range call.Common().Args {
+						if g, ok := a.(*ssa.Global); ok && inRepo(g.Pkg.Pkg.Path()) {
+							n++
+							c.bad(rule, fnName(fn)+":shares-package-variable:"+g.Name(), ins.Pos(), "the address of the package-level variable "+g.Name()+" is handed to "+calleeFullName(call)+" while compiling or running a script: a pool, cache or counter kept at package level carries state from one execution to the next")
+						}
+					}
+				}
+				if mu, ok := ins.(*ssa.MapUpdate); ok {
+					if l, ok := mu.Map.(*ssa.UnOp); ok && l.Op == token.MUL {
+						if g, ok := l.X.(*ssa.Global); ok && inRepo(g.Pkg.Pkg.Path()) {
+							n++
+							c.bad(rule, fnName(fn)+":updates-package-map:"+g.Name(), ins.Pos(), "the package-level map "+g.Name()+" is updated while compiling or running a script: state survives the execution")
+						}
+					}
+				}
 				st, ok := ins.(*ssa.Store)
 				if !ok {
 					continue
@@ -1441,7 +1459,7 @@ func ruleR12d(c *Ctx) {
 		}
 	}
 	if n == 0 {
-		c.ok(rule, "no-package-state-written", token.NoPos, "no store to a package-level variable in internal/machine/** (parser excluded) and internal/engine/command outside initialisers")
+		c.ok(rule, "no-package-state-written", token.NoPos, "no store to a package-level variable, no package-level variable whose address is handed to a call (pool, cache, mutex, counter) and no package-level map updated in internal/machine/** (parser excluded) and internal/engine/command outside initialisers")
 	}
 }
 
